@@ -132,6 +132,24 @@ theorem fact_daemon_shape :
     seqDaemon.contains "signalStop" = false ∧ seqDaemon.contains "panic" = false ∧
     (seqDaemon.filter (· == "groupRun")).length = 1 := by decide
 
+/-! ### C08 / C19: the sensor start-up and the sensor monitor's loop -/
+
+def seqInitSensors := seqOf "internal/backend.go:initializeSensors"
+def seqMonitorRun := seqOf "internal/monitor.go:sensorMonitor.Run"
+
+/-- `initializeSensors`: per configured sensor (inner loop: the hwmon controllers) the sensor is created, read ONCE, the
+    moving average is seeded with that reading and only then is the sensor registered (so nothing polls it before the seed
+    is in) - all in the start-up's own goroutine (no `go` statement) and with no timer (model: `sn.init`, the moving average
+    starts at the first reading, or at 0 when that read fails) -/
+theorem fact_init_sensors_seed_order :
+    seqInitSensors = ["loop{", "loop{", "newSensor", "getValue", "setAvg", "register"] := by decide
+
+/-- `sensorMonitor.Run`: ONE ticker at the configured rate, one `updateSensor` per tick inside the loop; the ticker is
+    never re-armed (`tick.Reset`), no timers, no `go` statement, no `panic` (model: `sn.monitor`, a fold of `updateSensor`
+    over the polls) -/
+theorem fact_monitor_loop_shape :
+    seqMonitorRun = ["newTicker", "loop{", "updateSensor"] := by decide
+
 
 /-! ### C09: every syntactic crash site of the daemon-reachable packages is accounted for -/
 
